@@ -68,8 +68,7 @@ def main():
             c.sample({"w": e["w"], "tree": e["tree"], "text": J.text(e)})
     c.finish(rule="random trees (depth <= 3) built through the Value API in 3 character widths; distinct = distinct (width, tree)",
              assumptions=["number formatting itself is the subject of C10/C11: reals are k/2, integers incl. the 64-bit extremes",
-                          "pointer-to-value entries point to every kind incl. Undefined and to a pointer to Undefined; a pointer to a pointer to a "
-                          "defined value is not generated (the public accessors forward one level only, so the tree is not observable)"],
+                          "pointer-to-value entries point to every kind incl. Undefined, and to pointers to Undefined / a string / an array"],
              exhaustive=False)
 
 
